@@ -35,8 +35,34 @@ from pyvc.vc import Unit
 MOD_GR = "PyMatterSim.static.gr"
 MOD_SQ = "PyMatterSim.static.sq"
 
-NOT_DECIDED = []
-TRUSTED = []
+NOT_DECIDED = [
+    "bin membership of distances within one ulp of a bin edge, and the value of int(Lmin/2/rdelta) at float rounding (A1: floats are reals)",
+    "complex tensor fields (dtype complex128 with conditiontype='tensor'): the code stores the complex trace into a float array "
+    "(numpy discards the imaginary part with a ComplexWarning); the statement lists symmetric (real) tensors only — not under contract",
+    "boolean conditions combined with conditiontype 'vector'/'tensor', and tensor conditions passed to conditional_sq (no such kind in the statement)",
+    "effect of the 8-decimal rounding on which |q| values coincide (the per-|q| mean is proved relative to the rounded q column: "
+    "pandas groupby contract), and the order/uniqueness of the group keys (assumed pandas contract)",
+    "gA_norm when A is constant (<A^2> = <A>^2): the documented quotient is undefined there (precondition of the gA_norm clause)",
+    "selections with no selected particle (N_A = 0): division by zero in both functions; excluded by the precondition N_A >= 1",
+]
+TRUSTED = [
+    "assumed contract of np.histogram(a, bins=B, range=(lo,hi), weights=w): equal-width bins, last bin closed, weighted counts; complex "
+    "weights accumulate componentwise (pyvc/lib.py np_histogram)",
+    "assumed contract of boolean-mask row selection a[mask]: rows in increasing index order = a bijection sel:[0,count)->{j: mask_j}; "
+    "Sigma re-indexing along it: sum_{p<count} g(sel(p)) = sum_{j<n} [mask_j] g(j) (pyvc/arr.py Masked.enumeration, pyvc/axioms.py)",
+    "Sigma rules used as axiom instances: unfold, extensionality (also between an integer- and a real-valued sum: Z->R commutes with "
+    "finite sums), constant summand sum_{t<n} c = n c, linearity for designated applications (vector = sum over components)",
+    "assumed pandas contracts: DataFrame(0, index=range(n), columns=...), DataFrame(2-D array, columns=...), column get/set, `df[c] += v` "
+    "(an integer zero column promoted to float keeps its values), join by position, round(8) = element-wise decimal rounding, "
+    "Series.groupby(keys).mean().reset_index() = one row per distinct key with the group mean (pyvc/pandas_model.py)",
+    "np.iscomplexobj (pyvc/libext/C13.py; used only by the proposed fix), np.linalg.norm, np.exp(i x) = cos x + i sin x, np.conj, np.trace, "
+    "np.matmul, math.sqrt with sqrt(x)^2 = x for x >= 0",
+    "callee contract of remove_pbc (proved in C02); nidealfac is inlined (own unit in C03)",
+    "loop engine: a scalar accumulator that the body turns into an array is broadcast in the pre-state; the first iteration from the real "
+    "(scalar) state is checked against the first iteration from the broadcast state (obligation loop-first-iteration, part of `safety`)",
+    "proof-based matching of Sigma terms (contracts/C13.py match_sigmas): an engine Sigma-term is rewritten to the spec term only after "
+    "their equality has been proved; the equalities are listed as their own obligations (N_A=number-selected, gA_norm:<A>,<A^2>)",
+]
 
 # ------------------------------------------------------------------------------------------------------------------
 # conditional_gr
@@ -59,8 +85,10 @@ def _cond_array(ctx, kind, N, m, tr=None, species=None):
     if kind == "float":
         a = ctx.array("A", (N,), "float")
         return a, lambda i: a.get((i,))
-    if kind == "complex":
+    if kind in ("complex", "complex64"):
         a = ctx.array("A", (N,), "complex")
+        if kind == "complex64":        # single-precision complex field: numpy dtype name complex64 (same value model)
+            ctx.state.heap[a.sid].meta["dtype_name"] = "complex64"
         return a, lambda i: a.get((i,))
     if kind == "vector":
         a = ctx.array("A", (N, m), "float")
@@ -87,7 +115,7 @@ def weight(kind, el, i, j, m):
     """w_ij of the statement"""
     if kind in BOOL_KINDS:
         return sv.ite(sv.and_(el(i), el(j)), 1, 0)
-    if kind in ("float", "complex", "ones"):
+    if kind in ("float", "complex", "complex64", "ones"):
         return _re_mul_conj(el(i), el(j))
     if kind in ("vector", "cvector"):
         ai, aj = el(i), el(j)
@@ -170,7 +198,7 @@ def _conj(goals):
 
 GR_KINDS = {
     # kind: (conditiontype argument, has gA_norm)
-    "bool": (None, False), "float": (None, True), "complex": (None, False),
+    "bool": (None, False), "float": (None, True), "complex": (None, False), "complex64": (None, False),
     "vector": ("vector", False), "cvector": ("vector", False), "tensor": ("tensor", False),
     "species1": (None, False), "species2": (None, False), "alltrue": (None, False), "ones": (None, True),
 }
@@ -235,6 +263,7 @@ class CondGr(Unit):
             ct = GR_KINDS[kind][0]
         inp["el"] = el
         inp["cond"] = cond
+        inp["snap"], inp["ppp"] = snap, ppp
         if kind in BOOL_KINDS:
             NA = Sum(0, N, lambda i: sv.ite(el(i), 1, 0))
             ctx.assume(sv.cmp(">=", NA, 1))         # at least one selected particle
@@ -259,6 +288,8 @@ class CondGr(Unit):
             names += ["gA_norm:<A>,<A^2>", "gA_norm"]
         if kind in BOOL_KINDS:
             names += ["N_A=number-selected"]
+        if kind == "vector" and m == d:
+            names += ["vector:count=sum-of-component-counts", "vector:gA=sum-of-component-gA"]
         if kind.startswith("species"):
             names += ["reduction:count=cnt_aa(C03)", "reduction:gA=g_aa(C03)"]
         if kind in ("alltrue", "ones"):
@@ -280,9 +311,10 @@ class CondGr(Unit):
             return
         res = out.value
         want_order = ["r", "gr", "gA"] + (["gA_norm"] if GR_KINDS[kind][1] else [])
-        ok = isinstance(res, Ref) and res.kind == "df" and df_content(res)["order"] == want_order
+        isdf = isinstance(res, Ref) and res.kind == "df"
+        ok = isdf and df_content(res)["order"] == want_order
         yield "columns", bool(ok)
-        if not ok:
+        if not (isdf and all(nm in df_content(res)["cols"] for nm in want_order)):
             return
         c = df_content(res)["cols"]
         Bt = df_content(res)["n"]          # number of rows = number of bins (a term over the inputs)
@@ -301,8 +333,14 @@ class CondGr(Unit):
         yield "bin-edges=k*rdelta", gen(sv.implies(inr, sv.cmp("==", sv.add(0, sv.mul(k, sv.div(sv.sub(hi, 0), Bt))), sv.mul(k, inp["rd"])))), {"ring_only": True}
         NA = inp["NA"]
         el = inp["el"]
+        raws = {}
         for name, w, na in (("gr", None, N), ("gA", (lambda i, j: weight(kind, el, i, j, m)), NA)):
-            v = c[name].get((k,))
+            v = sv.norm(c[name].get((k,)))
+            if isinstance(v, sv.Cx):
+                # the statement's weights Re(A_i conj A_j) are real: a complex-valued column is not the specified one
+                yield f"{name}:count", False
+                yield f"{name}:normalisation", False
+                continue
             sig = outer_sigmas(sv.zr(v))
             if name == "gA" and na is not N:
                 # the selected count as the code computes it = number of selected particles; from here on written as the spec term
@@ -315,8 +353,9 @@ class CondGr(Unit):
                 yield f"{name}:normalisation", False
                 continue
             raw = sv.SV(sig[0])
+            raws[name] = (v, raw)
             want = cntw_spec(inp, w, k, Bt)
-            yield f"{name}:count", gen(sv.implies(inr, sv.cmp("==", raw, want)))
+            yield f"{name}:count", gen(sv.implies(inr, sv.cmp("==", raw, want))), {"timeout": 5}
             gn = gen(sv.implies(sv.and_(inr, sv.cmp(">=", na, 1)), sv.cmp("==", v, gA_spec(inp, raw, na, k))), [raw] + ([na] if na is not N else []))
             yield f"{name}:normalisation", gn, {"ring_only": True}
             if name == "gA" and (kind.startswith("species") or kind in ("alltrue", "ones")):
@@ -352,6 +391,38 @@ class CondGr(Unit):
                         yield "reduction:gA=gr", gen(g3), {"ring_only": True}
                     else:
                         yield "reduction:gA=gr", False
+        if kind == "vector" and m == inp["d"] and "gA" in raws:
+            # "a vector field equals the sum over its components": second symbolic run of the REAL body per component with the
+            # scalar field A[:, c] (conditiontype None); gA_vector(k) = sum_c gA_{A_c}(k)
+            from pyvc.interp import FuncVal, load_module
+            mod = load_module(MOD_GR)
+            fv = FuncVal(mod, mod.defs["conditional_gr"])
+            cr = inp["cond"].reader()
+            comp_cells, comp_raw = [], []
+            for cc in range(m):
+                cond_c = A.new_arr((N,), lambda idx, cc=cc: cr((idx[0], cc)), "float")
+                ctx.interp.depth += 1
+                try:
+                    res_c = ctx.interp.call_function(fv, [inp["snap"], cond_c], {"conditiontype": None, "ppp": inp["ppp"], "rdelta": inp["rd"]})
+                finally:
+                    ctx.interp.depth -= 1
+                cell = df_content(res_c)["cols"]["gA"].get((k,))
+                sg = outer_sigmas(sv.zr(cell))
+                comp_cells.append(cell)
+                comp_raw.append(sg[0] if len(sg) == 1 else None)
+            vv, rawv = raws["gA"]
+            if all(r is not None for r in comp_raw):
+                lin = [(sv.zr(rawv), comp_raw)]
+                tot = _sum([sv.SV(r) for r in comp_raw])
+                yield ("vector:count=sum-of-component-counts", gen(sv.implies(inr, sv.cmp("==", rawv, tot))),
+                       {"solver_opts": dict(self.solver_opts, sigma_linear=lin), "timeout": 20})
+                Rs = [z3.Real(f"R_comp{cc}") for cc in range(m)]
+                lhs = z3.substitute(sv.zr(vv), (sv.zr(rawv), sv.zr(_sum([sv.SV(r) for r in Rs]))))
+                rhs = sv.zr(_sum([sv.SV(z3.substitute(sv.zr(cell), (r, R))) for cell, r, R in zip(comp_cells, comp_raw, Rs)]))
+                yield "vector:gA=sum-of-component-gA", gen(z3.Implies(sv.zb(inr), lhs == rhs)), {"ring_only": True}
+            else:
+                yield "vector:count=sum-of-component-counts", False
+                yield "vector:gA=sum-of-component-gA", False
         # divisors introduced by the code: N, N_A (>= 1 by precondition), V = prod L > 0, shell_k > 0
         rd = inp["rd"]
         shell_pos = sv.cmp(">", sv.sub(sv.power(sv.mul(sv.add(k, 1), rd), inp["d"]), sv.power(sv.mul(k, rd), inp["d"])), 0)
@@ -456,6 +527,8 @@ def _replay_cgr(d, kind, m, clause, model, seed):
             cond = rng.normal(size=N)
         elif kind == "complex":
             cond = rng.normal(size=N) + 1j * rng.normal(size=N)
+        elif kind == "complex64":
+            cond = (rng.normal(size=N) + 1j * rng.normal(size=N)).astype(np.complex64)
         elif kind == "vector":
             cond = rng.normal(size=(N, m))
         elif kind == "cvector":
@@ -484,8 +557,8 @@ def _replay_cgr(d, kind, m, clause, model, seed):
             a = cond.astype(float)
             W = np.outer(a, a)
             NA = int(cond.sum())
-        elif kind in ("float", "ones", "complex"):
-            W = np.real(np.outer(cond, np.conj(cond)))
+        elif kind in ("float", "ones", "complex", "complex64"):
+            W = np.real(np.outer(cond.astype(complex), np.conj(cond.astype(complex))))
             NA = N
         elif kind in ("vector", "cvector"):
             W = np.real(np.einsum("ic,jc->ij", cond, np.conj(cond)))
@@ -495,7 +568,8 @@ def _replay_cgr(d, kind, m, clause, model, seed):
             NA = N
         want_cols = ["r", "gr", "gA"] + (["gA_norm"] if GR_KINDS[kind][1] else [])
         if list(res.columns) != want_cols or len(res) != B:
-            return {"ran": True, "failed": True, "detail": f"columns {list(res.columns)} / {len(res)} rows, expected {want_cols} / {B}", "inputs": inputs}
+            if clause in ("", "columns") or len(res) != B or any(cn not in res.columns for cn in want_cols):
+                return {"ran": True, "failed": True, "detail": f"columns {list(res.columns)} / {len(res)} rows, expected {want_cols} / {B}", "inputs": inputs}
         h1, near = _brute_gr(pos, H, ppp, rdelta, B, np.ones((N, N)))
         hA, _ = _brute_gr(pos, H, ppp, rdelta, B, W)
         if near:
@@ -507,8 +581,12 @@ def _replay_cgr(d, kind, m, clause, model, seed):
         if kind in ("alltrue", "ones"):
             want["gA"] = want["gr"]          # A = 1 reproduces the total
         for name, w in want.items():
-            got = res[name].values.astype(float)
-            if not np.allclose(got, w, rtol=1e-9, atol=1e-12):
+            if np.iscomplexobj(res[name].values) and np.abs(np.imag(res[name].values)).max() > 1e-9:
+                return {"ran": True, "failed": True, "searched": tried, "inputs": inputs,
+                        "detail": f"column {name} is complex-valued (imaginary part up to {np.abs(np.imag(res[name].values)).max()!r}); the statement's weights Re(A_i conj A_j) are real"}
+            got = np.real(res[name].values).astype(float)
+            rt, at = (1e-5, 1e-6) if kind == "complex64" else (1e-9, 1e-12)      # single-precision input: single-precision products
+            if not np.allclose(got, w, rtol=rt, atol=at):
                 kb = int(np.argmax(np.abs(got - w)))
                 return {"ran": True, "failed": True, "searched": tried, "inputs": inputs,
                         "detail": f"column {name}, bin {kb}: got {got[kb]!r}, expected {w[kb]!r} (weighted ordered-pair histogram, 2 V cnt / (N_A^2 shell))"}
@@ -522,8 +600,6 @@ def _replay_cgr(d, kind, m, clause, model, seed):
     return {"ran": True, "failed": False, "searched": tried}
 
 
-UNITS = [CondGr()]
-MANIFEST = {"text": "", "note": ""}
 
 
 # ------------------------------------------------------------------------------------------------------------------
@@ -680,7 +756,7 @@ class CondSq(Unit):
                 goals_sum.append(sv.implies(inr, sv.cmp("==", e, want)))
                 gn, _ = sv.generalize(sv.implies(inr, sv.cmp("==", got, sv.div(e, rootNA))), [e], "S")
                 goals_norm.append(sv.SV(gn))
-            yield f"{f}:sum=sum_i-A_i-exp(-iq.r_i)", (sv.and_(*goals_sum) if all(x is not False for x in goals_sum) else False)
+            yield f"{f}:sum=sum_i-A_i-exp(-iq.r_i)", (sv.and_(*goals_sum) if all(x is not False for x in goals_sum) else False), {"timeout": 5}
             yield f"{f}:normalisation=1/sqrt(N_A)", (sv.and_(*goals_norm) if all(x is not False for x in goals_norm) else False), {"ring_only": True}
         sqarg = raw["Sq"][0]
         mod2 = _sum([sv.add(sv.mul(raw[f][0], raw[f][0]), sv.mul(raw[f][1], raw[f][1])) for f in fcols])
@@ -849,3 +925,34 @@ def _replay_csq(d, kind, clause, model, seed):
 
 
 UNITS = [CondGr(), CondSq()]
+
+MANIFEST = {
+    "text": "conditional_gr and conditional_sq (real ASTs, re-read every run; one configuration, symbolic particle number N, symbolic cell "
+            "matrix / box lengths, symbolic bin width, bin index, wave-vector list length and row; d in {2,3}).  conditional_gr, for the "
+            "condition kinds bool, float, complex (complex128 and complex64), float vector, complex vector, float tensor (and a vector length "
+            "different from d): the table has one row per bin, B = int(Lmin/2/rdelta) rows, r = bin centre; (count) the Sigma-term accumulated "
+            "by the real particle loop / inner tensor loop / np.histogram equals the sum over every unordered pair i<j exactly once of "
+            "w_ij [|min-image distance| in bin k] with w_ij = Re(A_i conj A_j) (bool -> {0,1}), Re sum_c A_ic conj A_jc (vector), "
+            "tr(A_i A_j) (tensor), and 1 for the gr column; (normalisation) gA = 2 V cnt / (N_A^2 shell_k) with N_A = number of selected "
+            "particles for bool (proved equal to the code's count) and N otherwise, gr = 2 V cnt / (N^2 shell_k), for any count value (ring "
+            "normal form); gA_norm = (gA - <A>^2)/(<A^2> - <A>^2) for float scalars; ValueError for any other conditiontype; divisors "
+            "non-zero.  Reductions on the real function: A_i = [type_i = a] gives exactly the C03 spec of the partial g_aa (count and "
+            "normalisation, T = 1); A = 1 (float) and A = True (bool) give the C03 total and equal the function's own gr column (N_A = N by "
+            "the constant-sum rule); a vector field gives the sum over its components of the scalar gA (second symbolic run of the real "
+            "body per component, Sigma linearity).  conditional_sq, for bool, float, complex, float vector, complex vector: one row per "
+            "wave vector; q-components = (2 pi / L_c) n_mc and q = |q_m|; every FFT column = sum_i A_i exp(-i q_m . r_i) / sqrt(N_A) (bool: "
+            "the loop over the mask-selected rows is re-indexed to sum_j [A_j] ...; N_A = number selected), Sq = |FFT|^2 summed over "
+            "components = |sum|^2 / N_A, every value rounded to 8 decimals; second table = per distinct rounded |q| the mean of the rounded "
+            "Sq values; reductions: a species selection gives |rho_a|^2 / N_a and A = 1 / all-True gives |rho|^2 / N of the C04 density-mode "
+            "definition (before rounding).",
+    "note": "floats as reals (A1); assumed library contracts: np.histogram (weighted), boolean-mask selection enumeration + Sigma re-indexing, "
+            "pandas frame construction / column update / join / round / groupby-mean, np.linalg.norm, exp(ix) = cos x + i sin x, "
+            "remove_pbc callee contract (C02); preconditions N >= 2 (g), Lmin >= 2 rdelta (at least one bin), N_A >= 1, A not constant for "
+            "gA_norm; complex tensors and the rounding-induced coincidence of |q| classes are not decided.  On the pinned tree the "
+            "complex64 case of conditional_gr FAILS (dispatch on dtype == 'complex128': no conjugation, spurious gA_norm) — 4 obligations, "
+            "failing replays, fix in design_notes/C13.fix-1.diff (np.iscomplexobj); with the fix all obligations are proved.",
+}
+
+
+def extra_checks(tier, seed, repo):
+    return {}
